@@ -58,12 +58,23 @@ func (a *ARP) MarshalBinary() (data []byte, err error) {
 
 	copy(data[n:n+int(a.HWLength)], a.HWSrc)
 	n += int(a.HWLength)
-	copy(data[n:n+int(a.ProtoLength)], a.IPSrc.To4())
+	copy(data[n:n+int(a.ProtoLength)], a.protoAddr(a.IPSrc))
 	n += int(a.ProtoLength)
 	copy(data[n:n+int(a.HWLength)], a.HWDst)
 	n += int(a.HWLength)
-	copy(data[n:n+int(a.ProtoLength)], a.IPDst.To4())
+	copy(data[n:n+int(a.ProtoLength)], a.protoAddr(a.IPDst))
 	return data, nil
+}
+
+// protoAddr gives the bytes of a protocol address as the header's protocol length wants them: the 4-byte form of
+// an IPv4 address for length 4, the address as stored otherwise.
+func (a *ARP) protoAddr(ip net.IP) []byte {
+	if a.ProtoLength == 4 {
+		if v4 := ip.To4(); v4 != nil {
+			return v4
+		}
+	}
+	return ip
 }
 
 func (a *ARP) UnmarshalBinary(data []byte) error {
@@ -81,19 +92,20 @@ func (a *ARP) UnmarshalBinary(data []byte) error {
 		return errors.New("The []byte is too short to unmarshal a full ARP message.")
 	}
 
-	a.HWSrc = net.HardwareAddr(make([]byte, 6))
+	// Addresses have the lengths the header declares (6 and 4 for Ethernet/IPv4).
+	a.HWSrc = net.HardwareAddr(make([]byte, int(a.HWLength)))
 	copy(a.HWSrc, data[n:n+int(a.HWLength)])
 	n += int(a.HWLength)
 
-	a.IPSrc = net.IP(make([]byte, 4))
+	a.IPSrc = net.IP(make([]byte, int(a.ProtoLength)))
 	copy(a.IPSrc, data[n:n+int(a.ProtoLength)])
 	n += int(a.ProtoLength)
 
-	a.HWDst = net.HardwareAddr(make([]byte, 6))
+	a.HWDst = net.HardwareAddr(make([]byte, int(a.HWLength)))
 	copy(a.HWDst, data[n:n+int(a.HWLength)])
 	n += int(a.HWLength)
 
-	a.IPDst = net.IP(make([]byte, 4))
+	a.IPDst = net.IP(make([]byte, int(a.ProtoLength)))
 	copy(a.IPDst, data[n:n+int(a.ProtoLength)])
 
 	return nil
